@@ -102,6 +102,10 @@ func vTag(tag string)               { vTags = append(vTags, tag) }
 func vObserve(name string, v any)   { vObserved = append(vObserved, name+"="+vObsString(v)) }
 func vSymbolic() bool               { return false }
 func vRandBudget(n int)             { vRandLeft = n }
+
+// vMapOrder(true): from here on the engine ranges over maps in the opposite of its usual (sorted-key) order — another
+// legal Go order; natively Go randomises map iteration anyway
+func vMapOrder(reverse bool) {}
 func vAnd(a, b bool) bool           { return a && b }
 func vOr(a, b bool) bool            { return a || b }
 func vNot(a bool) bool              { return !a }
